@@ -638,6 +638,8 @@ type opResult struct {
 	Fired   bool   // node-error fault fired
 	After   string // patch: digest of the private resource after the operation
 	Ticks   int
+	raw     system.Collection // the collection Evaluate returned, kept to see whether it changes later
+	Stale   string            // evalmut: the second evaluation did not see the caller's change
 }
 
 func hashStr(s string) uint64 {
@@ -698,6 +700,7 @@ func execOp(op *Op, oc *opCtx, p *compiled, in0 *inputs, entryOverride *time.Tim
 			}
 		} else {
 			res.Outcome = canonCollection(idx, c)
+			res.raw = c
 		}
 	case "bool":
 		v, err := p.fp.EvaluateAsBool(in, opts...)
@@ -753,6 +756,16 @@ func execOp(op *Op, oc *opCtx, p *compiled, in0 *inputs, entryOverride *time.Tim
 			o2 = canonCollection(pidx, c2)
 		}
 		res.Outcome = "first{" + o1 + "} after-caller-change{" + o2 + "}"
+		// independent of any reference run: the changed input evaluated through brand-new objects
+		// (a deep copy) must give the same values as the changed input itself
+		fresh := make([]fhir.Resource, len(priv))
+		for i, r := range priv {
+			fresh[i] = proto.Clone(r).(fhir.Resource)
+		}
+		c3, err3 := p.fp.Evaluate(fresh, opts...)
+		if (err2 == nil) != (err3 == nil) || (err2 == nil && valueDigest(c2) != valueDigest(c3)) {
+			res.Stale = fmt.Sprintf("after the caller changed its input, evaluating that input gives %s but evaluating a deep copy of it gives %s", short(o2, 200), short(fmt.Sprintf("%v %v", valueDigest(c3), err3), 200))
+		}
 	case "str":
 		res.Outcome = "str(" + p.fp.String() + ")"
 	default:
